@@ -1,6 +1,7 @@
 """C03 — engine property check (see DESIGN.md section 6, C03)."""
 from engcommon import *          # noqa: F401,F403
 import engcommon
+engcommon.TRIM_FAMILIES = True     # left recursion through trims of every mode
 
 ID = "C03"
 HARNESS = "c03_harness"
@@ -12,3 +13,21 @@ RULE = ("all one-rule monotone grammars up to a node bound x all inputs over {a,
         "distinct = distinct case text")
 CORRESPONDENCE = "engine model (coq/Engine.v, eng_expected) = implementation on the projection of this property"
 FAST = 3
+
+MAXOBS = 4000000
+
+
+def generate(rng, tier, **kw):
+    """the common streams plus LONG inputs: at most once per position must hold for every length (a result cache that
+    forgets, say one that keeps a window of positions, shows only after thousands of positions and a late backtrack)"""
+    import gramgen as G
+    out = engcommon.generate(rng, tier, **kw)
+    a, semi, dot = ('rune', G.A), ('rune', 59), ('rune', 46)
+    items = ('seq', ('SMany', False), 'INone', False, None, [('ref', 0)])
+    rules = [('memo', 1, a)]
+    root = ('any', [G.seqof(items, semi), G.seqof(items, dot)])
+    rules, root = G.uniquify_memo(rules, root)
+    fl = engcommon.flags_for(rules, root, False)
+    for n, last in ((5000, 46), (5000, 59), (6500, 33)) if tier == "quick" else ((5000, 46), (5000, 59), (6500, 33), (9000, 46), (12000, 33)):
+        out.append((G.case_text(rules, root, [G.A] * n + [last], flags=fl), {"stream": "long-input", "unproductive": False}))
+    return out
